@@ -6109,6 +6109,11 @@ def infer_beaming(part: ScoreLike):
                         notes_in_beam = []
                         prev_beam = Beam()
                     notes_in_beam.append(note)
+                else:
+                    # a note too long to be beamed ends the group (a beam
+                    # does not reach over it)
+                    notes_in_beam = []
+                    prev_beam = None
 
 
 def is_a_within_b(a, b, wholly=False):
